@@ -183,6 +183,8 @@ def run_group(comp, g, meta, workdir, tier, backend=None, secondary=False):
     base = os.path.join(workdir, hname)
     defs = ' '.join('-D' + d for d in comp.defines)
     tmo = g.timeout or (300 if tier == 'quick' else 1800)
+    if secondary:
+        tmo = min(tmo, 300)   # the cross-check is advisory: a timeout there is reported, not waited for
     rc, out, err, dt = sh('goto-cc %s -I%s/stubs --function %s %s -o %s.a.gb' % (defs, ROOT, hname, hpath, base), 120)
     if rc != 0:
         res['infra'] = 'goto-cc failed: ' + (err or out)[-1500:]
